@@ -77,6 +77,9 @@ def run(ctx):
     restricted_default(ctx, "energy")
     s = Sib(ctx)
     s.auto_helper_mirrors(["_overlap_with_single_rot", "_overlap_with_double_rot"])
+    s.holomorphy(("_calc_energy",))
+    s.restricted_consumes_trial_data("energy")
+    s.cholesky_axis_complete(("_calc_energy",))
     s.rhf_restricted_vs_unrestricted("energy")
     s.cisd_vs_faster()
     s.noci_vs_uhf()
